@@ -93,7 +93,7 @@ def correspond(ctx):
     pairs = 0
     near = [0]
     pending = []
-    tagcount = {}
+    tagcount = {}; chol2_runs = [0]
     for i in range(npairs):
         qp = rng.random() < 0.35
         pr = PR.planted_conelp(rng, 'optimal', P_rank=(rng.randint(0, 3) if qp else None))
@@ -189,6 +189,8 @@ def correspond(ctx):
             evals += 1; pairs += 1
             tagcount[tag] = tagcount.get(tag, 0) + 1
             distinct.add((i, tag))
+            if ((rankPG is not None and rankPG < pr.n) if qp else (rankG < pr.n)) and (tag.startswith('kktsolver=chol2') or (not hasQS and not tag.startswith('kktsolver='))):
+                chol2_runs[0] += 1          # runs of kkt_chol2 on a rank-deficient G: the population of the listed finding
             if st.startswith('ValueError') and tag == 'kktsolver=chol2' and hasQS and 'kkt_chol2' in st:
                 continue            # documented: chol2 supports only the 'l' cone; rejected before solving
             if st != 'optimal':
@@ -205,8 +207,11 @@ def correspond(ctx):
         total = tagcount.get(tag, npairs)
         if os.environ.get('VERIF_DEBUG'): print('DEBUG', sig, tag, total, [x[1] for x in items])
         rare = all(st == 'unknown' or (st.startswith('ValueError') and 'domain error' in st) for _, st, _, _ in items) and len(items) <= max(1, min(3, total // 100 + 1)) and len(items) * 100 <= max(100, total)
+        # the listed chol2 finding concerns occasional instances; failures on most runs of that population are something else
+        systematic = sig == 'c06:chol2-rank-deficient-G' and len(items) >= 4 and len(items) > 0.5 * chol2_runs[0]
         for _, st, what, case in items:
-            ctx.violation(sig + (':rare-numerical-breakdown' if rare and sig != 'c06:chol2-rank-deficient-G' else ''), what, case)
+            ctx.violation(sig + (':systematic' if systematic else '') + (':rare-numerical-breakdown' if rare and sig != 'c06:chol2-rank-deficient-G' else ''), what, case)
+    ctx.cov['chol2_rank_deficient_runs'] = chol2_runs[0]
     ctx.cov.update({'evaluations': evals, 'distinct_nontrivial': len(distinct),
                     'rule': 'dispatch: 9 entry points x %d kktsolver values (exhaustive); metamorphic: %d planted well-posed cone LPs/QPs '
                             '(random cone structure l/q/s, equality constraints) x all presentations of the property list that apply; '
